@@ -93,6 +93,35 @@ func replayFile(path string) int {
 	return 0
 }
 
+func init() {
+	replayKinds["c03"] = func(c *Ctx, r map[string]json.RawMessage) bool {
+		var src, h string
+		var vec gosx.Model
+		json.Unmarshal(r["src"], &src)
+		json.Unmarshal(r["harness"], &h)
+		json.Unmarshal(r["vec"], &vec)
+		if h == "" {
+			h = "verifC03Eval"
+		}
+		var resp struct{ HostPanic string }
+		out, err := c.Native.RunOnce(map[string]interface{}{"Op": "harness", "Harness": h, "Src": src, "Vec": vec}, &resp, 30)
+		fmt.Printf("source %q options %s → hostpanic=%q err=%v %s\n", src, optString(vec), resp.HostPanic, err, lastLines(out, 2))
+		return err != nil || resp.HostPanic != ""
+	}
+	replayKinds["c18"] = func(c *Ctx, r map[string]json.RawMessage) bool {
+		p := &c18Prog{nin: 2}
+		var cut int
+		var m gosx.Model
+		json.Unmarshal(r["stmts"], &p.stmts)
+		json.Unmarshal(r["globals"], &p.globals)
+		json.Unmarshal(r["cut"], &cut)
+		json.Unmarshal(r["model"], &m)
+		ok, detail := c.replayC18(p, cut, m)
+		fmt.Printf("statements %q cut %b inputs %s\nwhole:       %v\nincremental: %v\n", p.stmts, cut, modelString(m), detail["whole"], detail["incremental"])
+		return ok
+	}
+}
+
 var extraOverlays = map[string]func() map[string][]byte{}
 var replayKinds = map[string]func(c *Ctx, r map[string]json.RawMessage) bool{}
 
